@@ -65,8 +65,16 @@ def run(prog, tier):
         params = [a.arg for a in init.args.args[1:]]
         ok = False
         detail = ""
-        if len(sup) == 1 and len(sup[0].args) >= 4 and len(params) >= 3:
-            a = sup[0].args
+        # positional and keyword arguments of the super().__init__ call, in the order of the base signature
+        bparams = [x.arg for x in base.methods["__init__"].args.args[1:]] if "__init__" in base.methods else []
+        sargs = []
+        if len(sup) == 1:
+            sargs = list(sup[0].args)
+            kws_ = {k.arg: k.value for k in sup[0].keywords if k.arg}
+            while len(sargs) < len(bparams) and bparams[len(sargs)] in kws_:
+                sargs.append(kws_[bparams[len(sargs)]])
+        if len(sup) == 1 and len(sargs) >= 4 and len(params) >= 3:
+            a = sargs
             ok = (isinstance(a[0], ast.Name) and a[0].id == params[0]
                   and isinstance(a[1], ast.Name) and a[1].id == params[1]
                   and isinstance(a[2], ast.Constant) and a[2].value == unc
